@@ -14,6 +14,7 @@ from __future__ import annotations
 import ast
 
 from ..engine import Engine
+from ..model import walk_own
 from ..report import Report
 from ..cfg import Node, TIMEOUT, ANY
 from .. import dataflow, tables
@@ -28,7 +29,9 @@ PHASES = ('slimta.smtp.server.Server._recv_command',
 
 def entries(e: Engine):
     out = [('server session', e.method_ctx('slimta.smtp.server.Server',
-                                            'handle'))]
+                                            'handle')),
+           ('server session', e.method_ctx('slimta.edge.smtp.SmtpEdge',
+                                           'handle'))]
     for c in e.concrete_classes('slimta.relay.smtp.client.SmtpRelayClient'):
         out.append(('relay attempt', e.method_ctx(c, '_run')))
     out.append(('relay attempt', e.method_ctx(
@@ -69,13 +72,18 @@ def skip_module(t):
 def run(e: Engine, rep: Report):
     rep.rule('T1', 'every blocking receive primitive reachable from a '
              'session/attempt entry is covered by a `with Timeout(...)` '
-             'scope on its call chain')
+             'scope on its call chain (or acts on a socket that was made '
+             'non-blocking on every path before)')
     rep.rule('T2', 'server command/data timeout scope is entered once per '
              'phase (no loop between phase entry and the scope)')
     rep.rule('T3', 'a timeout ends the attempt with a transient result')
     rep.rule('T4', 'server Timeout handler sends a 421 constant, flushes '
              'and raises')
+    rep.rule('T5', 'the duration of the data-phase Timeout scope falls back '
+             'to the command timeout: with only command_timeout configured '
+             'the data phase is still bounded')
     rep.tables.add('tables.BLOCKING_PRIMITIVES')
+    rep.tables.add('c14.FALLBACKS')
     rep.not_decided += ['wall-clock values of the configured timeouts',
                         'send-side stalls (kernel send buffers)',
                         'DNS resolver and idle poll() waits (bounded '
@@ -97,6 +105,17 @@ def run(e: Engine, rep: Report):
         for fr in {n.frame for n in g.nodes}:
             rep.functions.add(fr.ctx.func.qname)
         seen = set()
+        from ..facts import canon
+
+        def nonblock(x):
+            # <sock>.settimeout(0) / (0.0): later waits on it return at once
+            if x.kind == 'call' and e.call_name(x) == 'settimeout' and \
+                    x.ast.args and isinstance(x.ast.args[0], ast.Constant) \
+                    and x.ast.args[0].value in (0, 0.0) and \
+                    isinstance(x.ast.func, ast.Attribute):
+                return ['nb:' + canon(x.ast.func.value, x.frame)]
+            return []
+        nb_before = dataflow.must_events_before(g, nonblock)
         for n in g.nodes:
             if n.id not in reach:
                 continue
@@ -111,6 +130,13 @@ def run(e: Engine, rep: Report):
                 continue      # same chain, other CFG copy (finally dup.)
             seen.add(text)
             cover = [sc for sc in n.scopes if common.timeout_scope(e, sc)]
+            if not cover and isinstance(n.ast.func, ast.Attribute) and \
+                    ('nb:' + canon(n.ast.func.value, n.frame)) in (
+                        nb_before.get(n.id) or ()):
+                rep.ok('T1', where, text, loc=n.loc(),
+                       reason='the socket was made non-blocking '
+                       '(settimeout(0)) on every path before')
+                continue
             if cover:
                 rep.ok('T1', where, text, loc=n.loc(),
                        reason='inside with Timeout(%s) in %s' % (
@@ -150,6 +176,7 @@ def run(e: Engine, rep: Report):
 
     t4(e, rep)
     t3_pipe(e, rep)
+    t5(e, rep)
     pool.request_typestate(e, rep, 'T3', only_exc=(TIMEOUT,))
 
 
@@ -268,3 +295,91 @@ def t3_pipe(e: Engine, rep: Report):
                           'only (constructs: %s)' % sorted(ctor),
                           reason='Timeout arm builds TransientRelayError',
                           loc=h.loc())
+
+
+# (class, attribute used as a Timeout duration, its own constructor
+# parameter, the parameter it falls back to) - confirmed by reading both
+# constructors; the docstrings call data_timeout optional
+FALLBACKS = [
+    ('slimta.smtp.server.Server', 'data_timeout', 'data_timeout',
+     'command_timeout'),
+    ('slimta.relay.smtp.client.SmtpRelayClient', 'data_timeout',
+     'data_timeout', 'command_timeout'),
+]
+
+
+def _abs_none(x: ast.AST, env):
+    """'none' | 'set' | None(unknown) for an expression over parameters that
+    are either None or a configured number."""
+    if isinstance(x, ast.Name):
+        return env.get(x.id)
+    if isinstance(x, ast.Constant):
+        return 'none' if x.value is None else 'set'
+    if isinstance(x, ast.BoolOp) and isinstance(x.op, ast.Or):
+        for v in x.values:
+            r = _abs_none(v, env)
+            if r is None:
+                return None
+            if r == 'set':
+                return 'set'
+        return 'none'
+    if isinstance(x, ast.IfExp):
+        t = x.test
+        cond = None
+        if isinstance(t, ast.Compare) and len(t.ops) == 1 and \
+                isinstance(t.comparators[0], ast.Constant) and \
+                t.comparators[0].value is None:
+            l = _abs_none(t.left, env)
+            if l is not None:
+                if isinstance(t.ops[0], ast.Is):
+                    cond = l == 'none'
+                elif isinstance(t.ops[0], ast.IsNot):
+                    cond = l != 'none'
+        else:
+            l = _abs_none(t, env)
+            if l is not None:
+                cond = l == 'set'
+        if cond is None:
+            return None
+        return _abs_none(x.body if cond else x.orelse, env)
+    return None
+
+
+def t5(e: Engine, rep: Report):
+    for cq, attr, own, fb in FALLBACKS:
+        c = e.p.classes.get(cq)
+        init = c.methods.get('__init__') if c else None
+        if init is None:
+            rep.error('anchor vanished: %s.__init__' % cq)
+            continue
+        # the attribute really is the duration of a Timeout scope
+        used = any(isinstance(n, ast.Call) and
+                   ast.unparse(n.func).endswith('Timeout') and n.args and
+                   ast.unparse(n.args[0]) == 'self.' + attr
+                   for m in c.methods.values() for n in walk_own(m.node))
+        defs = [n for n in walk_own(init.node) if isinstance(n, ast.Assign)
+                and any(ast.unparse(t) == 'self.' + attr
+                        for t in n.targets)]
+        rep.evaluations += 1
+        if not used or not defs:
+            rep.error('anchor vanished: Timeout(self.%s) / its assignment '
+                      'in %s' % (attr, cq))
+            continue
+        for d in defs:
+            r = _abs_none(d.value, {own: 'none', fb: 'set'})
+            if r is None:
+                rep.unknown('T5', init.qname, 'fallback of ' + attr,
+                            'cannot evaluate `%s`' % ast.unparse(d.value),
+                            loc=init.loc(d))
+                continue
+            rep.check(r == 'set', 'T5', init.qname,
+                      '%s falls back to %s' % (attr, fb),
+                      'with %s configured and %s left at its default, '
+                      'self.%s is None: `with Timeout(None)` never fires, '
+                      'so a peer that stalls during the data phase holds '
+                      'the %s for ever' % (
+                          fb, own, attr, 'session' if 'server' in cq
+                          else 'delivery attempt'),
+                      loc=init.loc(d),
+                      reason='`%s` is set whenever %s is'
+                      % (ast.unparse(d.value), fb))
